@@ -90,8 +90,10 @@ func j(parts ...interface{}) string {
 
 // ---- expected item renderers (from decoded state) -----------------------
 
-func wantClass(c *basev1.Class) string { return j(c.Id, AddrStr(c.Admin), c.Metadata, c.CreditTypeAbbrev) }
-func gotClass(c *bt.ClassInfo) string  { return j(c.Id, c.Admin, c.Metadata, c.CreditTypeAbbrev) }
+func wantClass(c *basev1.Class) string {
+	return j(c.Id, AddrStr(c.Admin), c.Metadata, c.CreditTypeAbbrev)
+}
+func gotClass(c *bt.ClassInfo) string { return j(c.Id, c.Admin, c.Metadata, c.CreditTypeAbbrev) }
 func wantProject(s *Snapshot, p *basev1.Project) string {
 	cid := "?"
 	if c := s.ClassByKey(p.ClassKey); c != nil {
@@ -172,7 +174,9 @@ func init() {
 	base := "/regen.ecocredit.v1.Query/"
 	// ---- classes
 	regQ(&qspec{Name: "Classes", Path: base + "Classes", Paged: true,
-		Mk:   func(a, b string, pg *query.PageRequest) gogoproto.Message { return &bt.QueryClassesRequest{Pagination: pg} },
+		Mk: func(a, b string, pg *query.PageRequest) gogoproto.Message {
+			return &bt.QueryClassesRequest{Pagination: pg}
+		},
 		Resp: func() gogoproto.Message { return &bt.QueryClassesResponse{} },
 		Out: func(r gogoproto.Message) (out []string, p *query.PageResponse) {
 			x := r.(*bt.QueryClassesResponse)
@@ -255,7 +259,9 @@ func init() {
 		return
 	}
 	regQ(&qspec{Name: "Projects", Path: base + "Projects", Paged: true,
-		Mk:   func(a, b string, pg *query.PageRequest) gogoproto.Message { return &bt.QueryProjectsRequest{Pagination: pg} },
+		Mk: func(a, b string, pg *query.PageRequest) gogoproto.Message {
+			return &bt.QueryProjectsRequest{Pagination: pg}
+		},
 		Resp: func() gogoproto.Message { return &bt.QueryProjectsResponse{} },
 		Out: func(r gogoproto.Message) ([]string, *query.PageResponse) {
 			x := r.(*bt.QueryProjectsResponse)
@@ -335,7 +341,9 @@ func init() {
 		},
 		Args: func(g *Gen, s *Snapshot) (string, string) { return g.argFrom(g.actorAddrs(), "regen1xyz"), "" }})
 	regQ(&qspec{Name: "Project", Path: base + "Project",
-		Mk:   func(a, b string, pg *query.PageRequest) gogoproto.Message { return &bt.QueryProjectRequest{ProjectId: a} },
+		Mk: func(a, b string, pg *query.PageRequest) gogoproto.Message {
+			return &bt.QueryProjectRequest{ProjectId: a}
+		},
 		Resp: func() gogoproto.Message { return &bt.QueryProjectResponse{} },
 		Out: func(r gogoproto.Message) (out []string, p *query.PageResponse) {
 			if x := r.(*bt.QueryProjectResponse); x.Project != nil {
@@ -358,7 +366,9 @@ func init() {
 		return
 	}
 	regQ(&qspec{Name: "Batches", Path: base + "Batches", Paged: true,
-		Mk:   func(a, b string, pg *query.PageRequest) gogoproto.Message { return &bt.QueryBatchesRequest{Pagination: pg} },
+		Mk: func(a, b string, pg *query.PageRequest) gogoproto.Message {
+			return &bt.QueryBatchesRequest{Pagination: pg}
+		},
 		Resp: func() gogoproto.Message { return &bt.QueryBatchesResponse{} },
 		Out: func(r gogoproto.Message) ([]string, *query.PageResponse) {
 			x := r.(*bt.QueryBatchesResponse)
@@ -434,7 +444,9 @@ func init() {
 		},
 		Args: func(g *Gen, s *Snapshot) (string, string) { return g.argFrom(projectIDs(s), "C01-999", ""), "" }})
 	regQ(&qspec{Name: "Batch", Path: base + "Batch",
-		Mk:   func(a, b string, pg *query.PageRequest) gogoproto.Message { return &bt.QueryBatchRequest{BatchDenom: a} },
+		Mk: func(a, b string, pg *query.PageRequest) gogoproto.Message {
+			return &bt.QueryBatchRequest{BatchDenom: a}
+		},
 		Resp: func() gogoproto.Message { return &bt.QueryBatchResponse{} },
 		Out: func(r gogoproto.Message) (out []string, p *query.PageResponse) {
 			if x := r.(*bt.QueryBatchResponse); x.Batch != nil {
@@ -525,7 +537,9 @@ func init() {
 			return g.argFrom(batchDenoms(s), "C01-001-20200101-20210101-999"), ""
 		}})
 	regQ(&qspec{Name: "AllBalances", Path: base + "AllBalances", Paged: true,
-		Mk:   func(a, b string, pg *query.PageRequest) gogoproto.Message { return &bt.QueryAllBalancesRequest{Pagination: pg} },
+		Mk: func(a, b string, pg *query.PageRequest) gogoproto.Message {
+			return &bt.QueryAllBalancesRequest{Pagination: pg}
+		},
 		Resp: func() gogoproto.Message { return &bt.QueryAllBalancesResponse{} },
 		Out: func(r gogoproto.Message) ([]string, *query.PageResponse) {
 			x := r.(*bt.QueryAllBalancesResponse)
@@ -539,7 +553,9 @@ func init() {
 		},
 		Args: func(g *Gen, s *Snapshot) (string, string) { return "", "" }})
 	regQ(&qspec{Name: "Supply", Path: base + "Supply",
-		Mk:   func(a, b string, pg *query.PageRequest) gogoproto.Message { return &bt.QuerySupplyRequest{BatchDenom: a} },
+		Mk: func(a, b string, pg *query.PageRequest) gogoproto.Message {
+			return &bt.QuerySupplyRequest{BatchDenom: a}
+		},
 		Resp: func() gogoproto.Message { return &bt.QuerySupplyResponse{} },
 		Out: func(r gogoproto.Message) (out []string, p *query.PageResponse) {
 			x := r.(*bt.QuerySupplyResponse)
@@ -575,7 +591,9 @@ func init() {
 		},
 		Args: func(g *Gen, s *Snapshot) (string, string) { return "", "" }})
 	regQ(&qspec{Name: "CreditType", Path: base + "CreditType",
-		Mk:   func(a, b string, pg *query.PageRequest) gogoproto.Message { return &bt.QueryCreditTypeRequest{Abbreviation: a} },
+		Mk: func(a, b string, pg *query.PageRequest) gogoproto.Message {
+			return &bt.QueryCreditTypeRequest{Abbreviation: a}
+		},
 		Resp: func() gogoproto.Message { return &bt.QueryCreditTypeResponse{} },
 		Out: func(r gogoproto.Message) (out []string, p *query.PageResponse) {
 			if c := r.(*bt.QueryCreditTypeResponse).CreditType; c != nil {
@@ -589,9 +607,13 @@ func init() {
 			}
 			return nil, false
 		},
-		Args: func(g *Gen, s *Snapshot) (string, string) { return Pick(g.R, []string{"C", "BIO", "KSH", "B", "CC", "c"}), "" }})
+		Args: func(g *Gen, s *Snapshot) (string, string) {
+			return Pick(g.R, []string{"C", "BIO", "KSH", "B", "CC", "c"}), ""
+		}})
 	regQ(&qspec{Name: "ClassCreatorAllowlist", Path: base + "ClassCreatorAllowlist",
-		Mk:   func(a, b string, pg *query.PageRequest) gogoproto.Message { return &bt.QueryClassCreatorAllowlistRequest{} },
+		Mk: func(a, b string, pg *query.PageRequest) gogoproto.Message {
+			return &bt.QueryClassCreatorAllowlistRequest{}
+		},
 		Resp: func() gogoproto.Message { return &bt.QueryClassCreatorAllowlistResponse{} },
 		Out: func(r gogoproto.Message) (out []string, p *query.PageResponse) {
 			return []string{fmt.Sprint(r.(*bt.QueryClassCreatorAllowlistResponse).Enabled)}, nil
@@ -633,7 +655,9 @@ func init() {
 		},
 		Args: func(g *Gen, s *Snapshot) (string, string) { return "", "" }})
 	regQ(&qspec{Name: "AllowedBridgeChains", Path: base + "AllowedBridgeChains",
-		Mk:   func(a, b string, pg *query.PageRequest) gogoproto.Message { return &bt.QueryAllowedBridgeChainsRequest{} },
+		Mk: func(a, b string, pg *query.PageRequest) gogoproto.Message {
+			return &bt.QueryAllowedBridgeChainsRequest{}
+		},
 		Resp: func() gogoproto.Message { return &bt.QueryAllowedBridgeChainsResponse{} },
 		Out: func(r gogoproto.Message) (out []string, p *query.PageResponse) {
 			return append(out, r.(*bt.QueryAllowedBridgeChainsResponse).AllowedBridgeChains...), nil
@@ -667,7 +691,9 @@ func init() {
 		return j(b.BasketDenom, b.Name, b.DisableAutoRetire, b.CreditTypeAbbrev, b.Curator)
 	}
 	regQ(&qspec{Name: "Baskets", Path: kb + "Baskets", Paged: true,
-		Mk:   func(a, b string, pg *query.PageRequest) gogoproto.Message { return &kt.QueryBasketsRequest{Pagination: pg} },
+		Mk: func(a, b string, pg *query.PageRequest) gogoproto.Message {
+			return &kt.QueryBasketsRequest{Pagination: pg}
+		},
 		Resp: func() gogoproto.Message { return &kt.QueryBasketsResponse{} },
 		Out: func(r gogoproto.Message) (out []string, p *query.PageResponse) {
 			x := r.(*kt.QueryBasketsResponse)
@@ -684,7 +710,9 @@ func init() {
 		},
 		Args: func(g *Gen, s *Snapshot) (string, string) { return "", "" }})
 	regQ(&qspec{Name: "Basket", Path: kb + "Basket",
-		Mk:   func(a, b string, pg *query.PageRequest) gogoproto.Message { return &kt.QueryBasketRequest{BasketDenom: a} },
+		Mk: func(a, b string, pg *query.PageRequest) gogoproto.Message {
+			return &kt.QueryBasketRequest{BasketDenom: a}
+		},
 		Resp: func() gogoproto.Message { return &kt.QueryBasketResponse{} },
 		Out: func(r gogoproto.Message) (out []string, p *query.PageResponse) {
 			x := r.(*kt.QueryBasketResponse)
@@ -709,7 +737,9 @@ func init() {
 			sort.Strings(cl)
 			return []string{wantBasketInfo(s, x) + "|" + strings.Join(cl, ",")}, true
 		},
-		Args: func(g *Gen, s *Snapshot) (string, string) { return g.argFrom(basketDenoms(s), "eco.uC.NOPE", "eco.uC.NC"), "" }})
+		Args: func(g *Gen, s *Snapshot) (string, string) {
+			return g.argFrom(basketDenoms(s), "eco.uC.NOPE", "eco.uC.NC"), ""
+		}})
 	regQ(&qspec{Name: "BasketBalances", Path: kb + "BasketBalances", Paged: true,
 		Mk: func(a, b string, pg *query.PageRequest) gogoproto.Message {
 			return &kt.QueryBasketBalancesRequest{BasketDenom: a, Pagination: pg}
@@ -806,7 +836,9 @@ func init() {
 		return
 	}
 	regQ(&qspec{Name: "SellOrders", Path: mb + "SellOrders", Paged: true,
-		Mk:   func(a, b string, pg *query.PageRequest) gogoproto.Message { return &mt.QuerySellOrdersRequest{Pagination: pg} },
+		Mk: func(a, b string, pg *query.PageRequest) gogoproto.Message {
+			return &mt.QuerySellOrdersRequest{Pagination: pg}
+		},
 		Resp: func() gogoproto.Message { return &mt.QuerySellOrdersResponse{} },
 		Out: func(r gogoproto.Message) ([]string, *query.PageResponse) {
 			x := r.(*mt.QuerySellOrdersResponse)
@@ -893,7 +925,9 @@ func init() {
 			return fmt.Sprint(g.R.Range(0, 40)), ""
 		}})
 	regQ(&qspec{Name: "AllowedDenoms", Path: mb + "AllowedDenoms", Paged: true,
-		Mk:   func(a, b string, pg *query.PageRequest) gogoproto.Message { return &mt.QueryAllowedDenomsRequest{Pagination: pg} },
+		Mk: func(a, b string, pg *query.PageRequest) gogoproto.Message {
+			return &mt.QueryAllowedDenomsRequest{Pagination: pg}
+		},
 		Resp: func() gogoproto.Message { return &mt.QueryAllowedDenomsResponse{} },
 		Out: func(r gogoproto.Message) (out []string, p *query.PageResponse) {
 			x := r.(*mt.QueryAllowedDenomsResponse)
@@ -984,7 +1018,9 @@ func init() {
 		return iri, err == nil
 	}
 	regQ(&qspec{Name: "AnchorByIRI", Path: db + "AnchorByIRI",
-		Mk:   func(a, b string, pg *query.PageRequest) gogoproto.Message { return &data.QueryAnchorByIRIRequest{Iri: a} },
+		Mk: func(a, b string, pg *query.PageRequest) gogoproto.Message {
+			return &data.QueryAnchorByIRIRequest{Iri: a}
+		},
 		Resp: func() gogoproto.Message { return &data.QueryAnchorByIRIResponse{} },
 		Out: func(r gogoproto.Message) (out []string, p *query.PageResponse) {
 			if a := r.(*data.QueryAnchorByIRIResponse).Anchor; a != nil {
